@@ -1,3 +1,756 @@
+// Command simcli simulates the CLI of a Cisco ASA, a Cisco IOS router or
+// a Linux host for the tool under test. It is started by the tool
+// through SIMULATE_ROUTER="simcli SPECFILE" under a raw-mode pty, applies
+// received commands to a device model and appends one event per received
+// line to the event log.
 package main
 
-func main() {}
+import (
+	"bufio"
+	"fmt"
+	"io"
+	"net/url"
+	"os"
+	"path/filepath"
+	"regexp"
+	"strings"
+	"time"
+
+	"verif/internal/model/cli"
+	"verif/internal/sim"
+)
+
+type session struct {
+	spec   *sim.Spec
+	in     *bufio.Reader
+	out    *bufio.Writer
+	ord    int
+	mode   string // exec | config
+	dev    cli.Device
+	start  time.Time
+	reload string // none | pending
+	// linux
+	lastStatus int
+	ps1Set     bool
+	modified   bool
+	busyDone   bool
+	lastEvent  *sim.Event
+	curFault   string // kind of fault applied to the line being processed
+	joined     bool   // current line arrived in the same packet as the previous one
+}
+
+func main() {
+	if len(os.Args) != 2 {
+		fmt.Fprintln(os.Stderr, "usage: simcli SPECFILE")
+		os.Exit(2)
+	}
+	spec, err := sim.LoadSpec(os.Args[1])
+	if err != nil {
+		fmt.Fprintln(os.Stderr, "simcli:", err)
+		os.Exit(2)
+	}
+	s := &session{spec: spec, in: bufio.NewReader(os.Stdin),
+		out: bufio.NewWriter(os.Stdout), mode: "exec", start: time.Now(),
+		reload: "none", modified: spec.Modified}
+	s.dev = cli.NewDevice(spec)
+	s.event("<session-start>", "login", "accepted")
+	switch spec.Type {
+	case "asa", "ios":
+		s.ciscoLogin()
+		s.ciscoLoop()
+	case "linux":
+		s.linuxLogin()
+		s.linuxLoop()
+	}
+	s.event("<session-end>", "end", "accepted")
+}
+
+func (s *session) w(format string, args ...any) {
+	fmt.Fprintf(s.out, format, args...)
+}
+
+func (s *session) flush() { s.out.Flush() }
+
+// readLine returns next received line without line terminator.
+func (s *session) readLine() string {
+	s.flush()
+	s.joined = s.in.Buffered() > 0
+	s.curFault = ""
+	line, err := s.in.ReadString('\n')
+	if err != nil {
+		s.event("<eof>", "end", "accepted")
+		os.Exit(0)
+	}
+	line = strings.TrimRight(line, "\r\n")
+	s.ord++
+	if p := s.spec.Park; p != nil && p.Ord == s.ord {
+		os.WriteFile(p.File+".at", []byte(fmt.Sprint(os.Getpid())), 0644)
+		for {
+			if _, err := os.Stat(p.File); err != nil {
+				break
+			}
+			time.Sleep(2 * time.Millisecond)
+		}
+	}
+	if d := s.spec.ReplyDelay; d > 0 {
+		time.Sleep(time.Duration(d) * time.Millisecond)
+	}
+	return line
+}
+
+func (s *session) fault() *sim.Fault {
+	for i := range s.spec.Faults {
+		if s.spec.Faults[i].Ord == s.ord {
+			return &s.spec.Faults[i]
+		}
+	}
+	return nil
+}
+
+func (s *session) event(raw, class, verdict string) {
+	e := &sim.Event{
+		Session: s.spec.Session, Sim: os.Getpid(), Tool: os.Getppid(),
+		Ord: s.ord, Raw: raw, Class: class, Mode: s.mode, Verdict: verdict,
+		Reload: s.reload, T: int64(time.Since(s.start)), Joined: s.joined,
+		Fault: s.curFault,
+	}
+	sim.AppendEvent(s.spec.Events, e)
+}
+
+// applyFault handles generic fault kinds. Returns true if the command
+// must not be processed any further.
+func (s *session) applyFault(line, class string, echo bool) bool {
+	f := s.fault()
+	if f == nil {
+		return false
+	}
+	s.curFault = f.Kind
+	switch f.Kind {
+	case "stall":
+		s.event(line, class, "fault:stall")
+		s.flush()
+		// Never answer; end when the tool closes the connection.
+		io.Copy(io.Discard, s.in)
+		os.Exit(0)
+	case "close":
+		s.event(line, class, "fault:close")
+		s.flush()
+		os.Exit(0)
+	case "error":
+		s.event(line, class, "fault:error")
+		if echo {
+			s.w("%s\r\n", line)
+		}
+		text := f.Text
+		if text == "" {
+			switch s.spec.Type {
+			case "asa":
+				text = "ERROR: % Invalid input detected at '^' marker."
+			case "ios":
+				text = "% Invalid input detected at '^' marker."
+			default:
+				text = "bash: command failed"
+			}
+		}
+		s.w("%s\r\n", text)
+		s.lastStatus = 1
+		return true
+	case "garbage":
+		s.event(line, class, "fault:garbage")
+		if echo {
+			s.w("%s\r\n", line)
+		}
+		s.w("some unexpected output line\r\n")
+		s.lastStatus = 0
+		return true
+	case "noecho":
+		s.event(line, class, "fault:noecho")
+		s.w("XX%s\r\n", line)
+		return true
+	case "status":
+		s.event(line, class, "fault:status")
+		if echo {
+			s.w("%s\r\n", line)
+		}
+		s.lastStatus = 1
+		return true
+	}
+	s.curFault = ""
+	return false
+}
+
+// ---------------------------------------------------------------------
+// Cisco
+
+func (s *session) prompt() string {
+	p := s.spec.Hostname
+	if s.mode == "config" {
+		p += s.dev.ModeSuffix()
+	}
+	if s.spec.Type == "asa" {
+		return p + "# "
+	}
+	return p + "#"
+}
+
+func (s *session) ciscoLogin() {
+	sp := s.spec
+	if sp.PreBanner != "" {
+		s.w("%s\r\n", strings.ReplaceAll(sp.PreBanner, "\n", "\r\n"))
+	}
+	s.w("admin@10.1.13.33's password: ")
+	for tries := 0; ; tries++ {
+		line := s.readLine()
+		ok := line == sp.Password
+		if f := s.fault(); f != nil {
+			switch f.Kind {
+			case "stall", "close":
+				s.applyFault("<password>", "login", false)
+			case "error":
+				ok = false
+				s.curFault = "error"
+			case "garbage":
+				s.curFault = "garbage"
+				s.event("<password>", "login", "fault:garbage")
+				s.w("\r\nConnection reset by peer, try later\r\n")
+				s.flush()
+				os.Exit(0)
+			}
+		}
+		if ok {
+			s.event("<password:ok>", "login", "accepted")
+			break
+		}
+		s.event("<password:bad>", "login", "rejected:auth")
+		if tries >= 2 {
+			s.w("\r\nPermission denied (password).\r\n")
+			s.flush()
+			os.Exit(0)
+		}
+		s.w("\r\nPermission denied, please try again.\r\nadmin@10.1.13.33's password: ")
+	}
+	s.w("\r\n")
+	if sp.PostBanner != "" {
+		s.w("%s\r\n", strings.ReplaceAll(sp.PostBanner, "\n", "\r\n"))
+	}
+	if sp.NeedEnable {
+		s.w("%s> ", sp.Hostname)
+		for {
+			line := s.readLine()
+			if s.applyFault(line, "login", true) {
+				s.w("%s> ", sp.Hostname)
+				continue
+			}
+			if line == "enable" {
+				s.event(line, "login", "accepted")
+				s.w("%s\r\n", line)
+				if sp.EnablePass {
+					s.w("Password: ")
+					pw := s.readLine()
+					if s.fault() != nil {
+						if !s.applyFault("<enable-password>", "login", false) {
+							s.curFault = s.fault().Kind
+						}
+						pw = ""
+					}
+					if pw != sp.Password {
+						s.event("<enable-password:bad>", "login", "rejected:auth")
+						s.w("\r\nInvalid password\r\n%s> ", sp.Hostname)
+						continue
+					}
+					s.event("<enable-password:ok>", "login", "accepted")
+					s.w("\r\n")
+				}
+				break
+			}
+			s.event(line, "login", "unmodelled")
+			s.w("%s\r\n%s> ", line, sp.Hostname)
+		}
+	}
+	s.w("%s", s.prompt())
+}
+
+var iosSessionSetting = map[string]bool{
+	"no logging console": true, "line vty 0 15": true,
+	"logging synchronous level all": true, "ip subnet-zero": true,
+	"ip classless": true,
+}
+
+func (s *session) ciscoClass(line string) string {
+	if s.mode == "exec" {
+		switch {
+		case line == "", strings.HasPrefix(line, "sh "), strings.HasPrefix(line, "show "),
+			line == "write term":
+			return "read-only"
+		case strings.HasPrefix(line, "term ") || strings.HasPrefix(line, "terminal "):
+			return "session-setting"
+		case line == "configure terminal":
+			return "mode"
+		case strings.HasPrefix(line, "reload in "):
+			return "guard"
+		case line == "reload cancel":
+			return "guard"
+		case line == "write memory":
+			return "save"
+		case line == "exit":
+			return "cleanup"
+		}
+		return "exec-other"
+	}
+	switch {
+	case line == "end", line == "exit", line == "":
+		return "mode"
+	case strings.HasPrefix(line, "do reload in "):
+		return "guard"
+	case s.spec.Type == "asa" && line == "terminal width 511":
+		return "session-setting"
+	case s.spec.Type == "ios" && iosSessionSetting[line]:
+		return "session-setting"
+	}
+	return "config-change"
+}
+
+const bel = "\x07"
+
+func bannerText(kind string) string {
+	msg := "SHUTDOWN in 0:02:00"
+	switch kind {
+	case "1:00":
+		msg = "SHUTDOWN in 0:01:00"
+	case "aborted":
+		msg = "SHUTDOWN ABORTED"
+	}
+	return "\r\n\r\n\r\n" + bel + "***\r\n*** --- " + msg + " ---\r\n***\r\n"
+}
+
+func (s *session) bannerAt() *sim.Banner {
+	for i := range s.spec.Banners {
+		if s.spec.Banners[i].Ord == s.ord {
+			return &s.spec.Banners[i]
+		}
+	}
+	return nil
+}
+
+// writeChunked writes text according to chunking pattern.
+func (s *session) writeChunked(text, chunk string) {
+	switch chunk {
+	case "lines":
+		for _, part := range strings.SplitAfter(text, "\n") {
+			s.w("%s", part)
+			s.flush()
+			time.Sleep(7 * time.Millisecond)
+		}
+	default:
+		s.w("%s", text)
+	}
+}
+
+// ciscoReply writes echo, output and prompt, garbled by a reload banner
+// if one is planned for this command.
+func (s *session) ciscoReply(line, output string) {
+	b := s.bannerAt()
+	if b == nil || s.spec.Type != "ios" || s.reload != "pending" && b.Kind != "aborted" {
+		s.w("%s\r\n%s%s", line, output, s.prompt())
+		return
+	}
+	bt := bannerText(b.Kind)
+	p := s.prompt()
+	switch {
+	case b.Form == "before-own-prompt":
+		s.writeChunked(bt+"\r\n"+p, b.Chunk)
+		if b.Chunk == "prompt-delayed" {
+			s.flush()
+			time.Sleep(15 * time.Millisecond)
+		}
+		s.w("%s\r\n%s%s", line, output, p)
+	case strings.HasPrefix(b.Form, "inside@"):
+		var off int
+		fmt.Sscanf(b.Form, "inside@%d", &off)
+		if off > len(line) {
+			off = len(line)
+		}
+		s.w("%s", line[:off])
+		s.writeChunked(bt, b.Chunk)
+		s.w("%s\r\n%s%s", line[off:], output, p)
+	case b.Form == "after-no-prompt":
+		s.w("%s", line)
+		s.writeChunked(bt, b.Chunk)
+		s.w("%s%s", output, p)
+	case b.Form == "after-own-prompt":
+		s.w("%s", line)
+		s.writeChunked(bt+"\r\n"+p, b.Chunk)
+		if b.Chunk == "prompt-delayed" {
+			s.flush()
+			time.Sleep(15 * time.Millisecond)
+		}
+		s.w("\r\n%s%s", output, p)
+	case b.Form == "after-prompt":
+		s.w("%s\r\n%s%s", line, output, p)
+		s.flush()
+		time.Sleep(10 * time.Millisecond)
+		s.writeChunked(bt+"\r\n"+p, b.Chunk)
+	default:
+		s.w("%s\r\n%s%s", line, output, p)
+	}
+}
+
+func (s *session) reloadDialogue(line string) {
+	s.event(line, "guard", "accepted")
+	s.w("%s\r\n", line)
+	if s.modified {
+		s.w("\r\nSystem configuration has been modified. Save? [yes/no]: ")
+		a := s.readLine()
+		if s.applyFault(a, "dialogue", true) {
+			s.w("%s", s.prompt())
+			return
+		}
+		s.event(a, "dialogue", "accepted")
+		s.w("%s\r\n", a)
+		if a != "n" && a != "no" {
+			// Configuration would be saved: record as save.
+			s.event("<saved-by-reload-dialogue>", "save", "accepted")
+		}
+	}
+	s.w("\r\nReload reason: Reload Command\r\nProceed with reload? [confirm]")
+	a := s.readLine()
+	if s.applyFault(a, "dialogue", true) {
+		s.w("%s", s.prompt())
+		return
+	}
+	if a == "" {
+		s.reload = "pending"
+		s.event(a, "dialogue", "accepted")
+	} else {
+		s.event(a, "dialogue", "rejected:reload-not-confirmed")
+	}
+	s.w("%s\r\n%s", a, s.prompt())
+}
+
+func (s *session) writeMemory(line string) {
+	sp := s.spec
+	s.w("%s\r\n", line)
+	if sp.Type == "asa" {
+		s.event(line, "save", "accepted")
+		if sp.WriteMem == "no-ok" {
+			s.w("Building configuration...\r\nError writing flash\r\n%s", s.prompt())
+			return
+		}
+		s.w("Building configuration...\r\nCryptochecksum: 12345678 9abcdef0\r\n\r\n3879 bytes copied in 0.10 secs\r\n[OK]\r\n%s", s.prompt())
+		return
+	}
+	switch sp.WriteMem {
+	case "nvram-confirm":
+		s.w("Warning: Attempting to overwrite an NVRAM configuration previously written\r\n" +
+			"by a different version of the system image.\r\n" +
+			"Overwrite the previous NVRAM configuration?[confirm]")
+		a := s.readLine()
+		s.event(a, "dialogue", "accepted")
+		s.w("%s\r\nBuilding configuration...\r\nCompressed configuration from 10194 bytes to 5372 bytes[OK]\r\n%s", a, s.prompt())
+		s.event(line, "save", "accepted")
+	case "busy-once":
+		if !s.busyDone {
+			s.busyDone = true
+			s.event(line, "save", "rejected:busy")
+			s.w("startup-config file open failed (Device or resource busy)\r\n%s", s.prompt())
+			return
+		}
+		fallthrough
+	case "", "ok":
+		s.event(line, "save", "accepted")
+		s.w("Building configuration...\r\n[OK]\r\n%s", s.prompt())
+	case "too-large", "no-ok":
+		s.event(line, "save", "rejected:too-large")
+		s.w("Building configuration...\r\n% Configuration buffer full, can't add command\r\n%s", s.prompt())
+	}
+	if s.spec.WriteMem == "" || s.spec.WriteMem == "ok" || s.spec.WriteMem == "nvram-confirm" || s.busyDone {
+		s.modified = false
+	}
+}
+
+func crlf(text string) string {
+	text = strings.ReplaceAll(text, "\r\n", "\n")
+	if text != "" && !strings.HasSuffix(text, "\n") {
+		text += "\n"
+	}
+	return strings.ReplaceAll(text, "\n", "\r\n")
+}
+
+func (s *session) ciscoLoop() {
+	sp := s.spec
+	for {
+		line := s.readLine()
+		class := s.ciscoClass(line)
+		if s.applyFault(line, class, true) {
+			s.w("%s", s.prompt())
+			continue
+		}
+		if s.mode == "exec" {
+			switch {
+			case line == "exit":
+				s.event(line, class, "accepted")
+				s.flush()
+				return
+			case line == "":
+				s.event(line, class, "accepted")
+				s.ciscoReply(line, "")
+			case line == "configure terminal":
+				s.event(line, class, "accepted")
+				s.mode = "config"
+				s.dev.EnterConfig()
+				out := ""
+				if sp.Type == "ios" {
+					out = "Enter configuration commands, one per line.  End with CNTL/Z.\r\n"
+				}
+				s.ciscoReply(line, out)
+			case line == "sh pager":
+				s.event(line, class, "accepted")
+				if sp.PagerOn {
+					s.ciscoReply(line, "pager lines 24\r\n")
+				} else {
+					s.ciscoReply(line, "no pager\r\n")
+				}
+			case line == "sh term":
+				s.event(line, class, "accepted")
+				if sp.Width80 {
+					s.ciscoReply(line, "\r\nWidth = 80, no monitor\r\n")
+				} else {
+					s.ciscoReply(line, "\r\nWidth = 511, no monitor\r\n")
+				}
+			case line == "sh ver":
+				s.event(line, class, "accepted")
+				if sp.Type == "asa" {
+					s.ciscoReply(line, "Cisco Adaptive Security Appliance Software Version 9.16(4)\r\n")
+				} else {
+					s.ciscoReply(line, "Cisco IOS Software, C2900 Software (C2900-UNIVERSALK9-M), Version 15.1(4)M4, RELEASE SOFTWARE (fc1)\r\n")
+				}
+			case line == "show hostname":
+				s.event(line, class, "accepted")
+				s.ciscoReply(line, sp.Hostname+"\r\n")
+			case line == "write term" || line == "sh run":
+				s.event(line, class, "accepted")
+				cfg := crlf(s.dev.Dump())
+				if sp.Type == "asa" {
+					cfg = ": Saved\r\n:\r\n" + cfg
+					if !sp.NoEndMarker {
+						cfg += ": end\r\n"
+					}
+				} else {
+					cfg = "Building configuration...\r\n\r\nCurrent configuration : 1234 bytes\r\n!\r\n" + cfg
+					if !sp.NoEndMarker {
+						cfg += "end\r\n"
+					}
+				}
+				s.ciscoReply(line, cfg)
+			case strings.HasPrefix(line, "term ") || strings.HasPrefix(line, "terminal "):
+				s.event(line, class, "accepted")
+				s.ciscoReply(line, "")
+			case strings.HasPrefix(line, "reload in ") && sp.Type == "ios":
+				s.reloadDialogue(line)
+			case line == "reload cancel" && sp.Type == "ios":
+				s.event(line, class, "accepted")
+				s.reload = "none"
+				s.w("%s\r\n%s%s", line, bannerText("aborted"), s.prompt())
+			case line == "write memory":
+				s.writeMemory(line)
+			default:
+				s.event(line, class, "unmodelled")
+				s.ciscoReply(line, "")
+			}
+			continue
+		}
+		// Configuration mode.
+		switch {
+		case line == "end":
+			s.event(line, class, "accepted")
+			s.mode = "exec"
+			s.dev.LeaveConfig()
+			s.ciscoReply(line, "")
+		case strings.HasPrefix(line, "do reload in ") && sp.Type == "ios":
+			s.reloadDialogue(line)
+		case class == "session-setting":
+			s.event(line, class, "accepted")
+			s.dev.Exec(line)
+			s.ciscoReply(line, "")
+		default:
+			out, verdict := s.dev.Exec(line)
+			if class == "mode" && line == "exit" && s.dev.ModeSuffix() == "" {
+				// exit from top config mode
+				s.mode = "exec"
+			}
+			s.event(line, class, verdict)
+			if class == "config-change" && strings.HasPrefix(verdict, "accepted") {
+				s.modified = true
+			}
+			s.ciscoReply(line, crlf(out))
+		}
+	}
+}
+
+// ---------------------------------------------------------------------
+// Linux
+
+func (s *session) linuxPrompt() string {
+	if s.ps1Set {
+		return "router#"
+	}
+	return "admin@" + s.spec.Hostname + ":~$ "
+}
+
+func (s *session) linuxLogin() {
+	sp := s.spec
+	if sp.PreBanner != "" {
+		s.w("%s\r\n", strings.ReplaceAll(sp.PreBanner, "\n", "\r\n"))
+	}
+	s.w("admin@10.1.13.33's password: ")
+	for tries := 0; ; tries++ {
+		line := s.readLine()
+		ok := line == sp.Password
+		if f := s.fault(); f != nil {
+			switch f.Kind {
+			case "stall", "close":
+				s.applyFault("<password>", "login", false)
+			case "error":
+				ok = false
+				s.curFault = "error"
+			case "garbage":
+				s.curFault = "garbage"
+				s.event("<password>", "login", "fault:garbage")
+				s.w("\r\nConnection reset by peer, try later\r\n")
+				s.flush()
+				os.Exit(0)
+			}
+		}
+		if ok {
+			s.event("<password:ok>", "login", "accepted")
+			break
+		}
+		s.event("<password:bad>", "login", "rejected:auth")
+		if tries >= 2 {
+			s.w("\r\nPermission denied (password).\r\n")
+			s.flush()
+			os.Exit(0)
+		}
+		s.w("\r\nPermission denied, please try again.\r\nadmin@10.1.13.33's password: ")
+	}
+	s.w("\r\nLinux %s 5.10.0 #1 SMP x86_64\r\n", sp.Hostname)
+	if sp.PostBanner != "" {
+		s.w("%s\r\n", strings.ReplaceAll(sp.PostBanner, "\n", "\r\n"))
+	}
+	s.w("\r\n%s", s.linuxPrompt())
+}
+
+var grepRE = regexp.MustCompile(`^grep '(.*)' /etc/issue$`)
+
+func (s *session) linuxLoop() {
+	sp := s.spec
+	reply := func(line, out string) {
+		s.w("%s\r\n%s%s", line, out, s.linuxPrompt())
+	}
+	for {
+		line := s.readLine()
+		class := "read-only"
+		switch {
+		case strings.HasPrefix(line, "ip route add ") || strings.HasPrefix(line, "ip route del ") ||
+			strings.HasPrefix(line, "chmod ") || strings.HasPrefix(line, "mv ") ||
+			strings.HasPrefix(line, "/etc/network/"):
+			class = "config-change"
+		case strings.HasPrefix(line, "PS1="):
+			class = "login"
+		case line == "exit":
+			class = "cleanup"
+		}
+		if line == "echo $?" {
+			// Status query belongs to the previous command; faults
+			// addressed at it are delivered like for other lines.
+			if s.applyFault(line, class, true) {
+				s.w("%s", s.linuxPrompt())
+				continue
+			}
+			s.event(line, class, "accepted")
+			reply(line, fmt.Sprintf("%d\r\n", s.lastStatus))
+			continue
+		}
+		if s.applyFault(line, class, true) {
+			s.w("%s", s.linuxPrompt())
+			continue
+		}
+		s.lastStatus = 0
+		switch {
+		case strings.HasPrefix(line, "PS1="):
+			s.event(line, class, "accepted")
+			s.w("%s\r\n", line)
+			s.ps1Set = true
+			s.w("%s", s.linuxPrompt())
+		case line == "exit":
+			s.event(line, class, "accepted")
+			s.flush()
+			return
+		case line == "uname -r":
+			s.event(line, class, "accepted")
+			reply(line, "5.10.0-28-amd64\r\n")
+		case line == "uname -m":
+			s.event(line, class, "accepted")
+			reply(line, "x86_64\r\n")
+		case line == "hostname -s":
+			s.event(line, class, "accepted")
+			reply(line, sp.Hostname+"\r\n")
+		case grepRE.MatchString(line):
+			s.event(line, class, "accepted")
+			m := grepRE.FindStringSubmatch(line)
+			out := ""
+			if re, err := regexp.Compile(m[1]); err == nil {
+				for _, l := range strings.Split(sp.Issue, "\n") {
+					if l != "" && re.MatchString(l) {
+						out += l + "\r\n"
+					}
+				}
+			}
+			if out == "" {
+				s.lastStatus = 1
+			}
+			reply(line, out)
+		case line == "ip route show":
+			s.event(line, class, "accepted")
+			reply(line, crlf(s.dev.Dump()))
+		case line == "iptables-save":
+			s.event(line, class, "accepted")
+			reply(line, crlf(s.dev.DumpAux()))
+		case line == "which iptables-restore":
+			s.event(line, class, "accepted")
+			reply(line, "/sbin/iptables-restore\r\n")
+		case strings.HasPrefix(line, "ip route add ") || strings.HasPrefix(line, "ip route del "):
+			out, verdict := s.dev.Exec(line)
+			s.event(line, class, verdict)
+			if out != "" {
+				s.lastStatus = 2
+			}
+			reply(line, crlf(out))
+		case strings.HasPrefix(line, "chmod "):
+			s.event(line, class, "accepted")
+			reply(line, "")
+		case strings.HasPrefix(line, "mv "):
+			s.event(line, class, "accepted")
+			reply(line, "")
+		case strings.HasPrefix(line, "/etc/network/"):
+			// Execute uploaded iptables-restore file (hook 1).
+			data := ""
+			if sp.ScpDir != "" {
+				b, err := os.ReadFile(filepath.Join(sp.ScpDir, url.PathEscape(line)))
+				if err == nil {
+					data = string(b)
+				}
+			}
+			out, verdict := s.dev.Exec("iptables-restore\n" + data)
+			s.event(line, class, verdict)
+			if out != "" {
+				s.lastStatus = 1
+			}
+			reply(line, crlf(out))
+		default:
+			s.event(line, class, "unmodelled")
+			s.lastStatus = 127
+			reply(line, "bash: "+line+": command not found\r\n")
+		}
+	}
+}
